@@ -3,6 +3,8 @@ NEXT Next
 CONSTANTS
   FlatLen = 4
   Mode = "misc"
+  EnumCap32 = TRUE
+  UnionFieldCallback = TRUE
   Small = FALSE
 INVARIANT EnumOKAll
 CHECK_DEADLOCK FALSE
